@@ -312,6 +312,86 @@ def classify_failure(c, ref, real):
     return f"{ar}{verb}:" + ":".join(shape_class(o) for o in ops)
 
 
+# manual examples that contradict the manual's own text (kept out of the comparison, with the reason)
+ERRATA = {
+    "!1": "the text says 0..a-1, i.e. [0]; the example shows [1]",
+    "1:+[[1 2] [4 5] [5 6]]": "the text says n:+M rotates the rows; the example shows the matrix unchanged",
+    "[2]:^[[1 2 3]]": "contradicts 'elements are taken from b in sequential order'; Ref leaves nested sources undefined",
+}
+
+
+def run_reference_corpus(ctx, drv):
+    """validate the transcription `Ref`: every `lhs --> rhs` example in the docstrings of the modelled
+    verbs (read with the real lexer, never evaluated) must be reproduced by the Lean reference"""
+    import ast as _ast
+    from klongpy import KlongInterpreter
+    from klongpy.parser import kg_read
+    klong = KlongInterpreter()
+    verbs_m = {v: k for k, v in EXPECT_MONADS.items()}
+    verbs_d = {v: k for k, v in EXPECT_DYADS.items()}
+    stats = dict(examples=0, parsed=0, ref_defined=0, agree=0, errata=0, disagree=[])
+
+    def lit(text, i):
+        try:
+            j, v = kg_read(text, i, read_neg=True, module=None)
+        except Exception:
+            return None
+        from klongpy.core import KGOp, KGSym
+        if isinstance(v, KGOp) or v is None:
+            return None
+        c = U.canon(v)
+        if "'X'" in repr(c) or "'D'" in repr(c):
+            return None              # dictionaries / calls: outside the C01 value universe
+        return j, c
+    for path, pre, table in (("klongpy/monads.py", "eval_monad_", verbs_m), ("klongpy/dyads.py", "eval_dyad_", verbs_d)):
+        tree = _ast.parse((common.REPO / path).read_text())
+        for node in tree.body:
+            if not (isinstance(node, _ast.FunctionDef) and node.name in table):
+                continue
+            verb = table[node.name]
+            for line in (_ast.get_docstring(node) or "").split("\n"):
+                if "-->" not in line:
+                    continue
+                lhs, rhs = line.replace("Examples:", "").replace("Example:", "").split("-->", 1)
+                lhs, rhs = lhs.strip(), rhs.strip().rstrip(".")
+                stats["examples"] += 1
+                if rhs.count("[") != rhs.count("]") or lhs.count("[") != lhs.count("]"):
+                    continue            # an example laid out over several lines
+                want = lit(rhs, 0)
+                if want is None or rhs[want[0]:].strip():
+                    continue
+                if pre == "eval_monad_":
+                    if not lhs.startswith(verb):
+                        continue
+                    a = lit(lhs, len(verb))
+                    if a is None or lhs[a[0]:].strip():
+                        continue
+                    line_req = f"M {verb} {U.to_wire(a[1])}"
+                else:
+                    a = lit(lhs, 0)
+                    if a is None or not lhs[a[0]:].startswith(verb):
+                        continue
+                    b = lit(lhs, a[0] + len(verb))
+                    if b is None or lhs[b[0]:].strip():
+                        continue
+                    line_req = f"D {verb} {U.to_wire(a[1])} {U.to_wire(b[1])}"
+                stats["parsed"] += 1
+                ref, _ = parse_reply(drv.ask(line_req))
+                if ref is None:
+                    continue
+                stats["ref_defined"] += 1
+                if lhs in ERRATA:
+                    stats["errata"] += 1
+                elif U.veq(ref, want[1], kinds=not (mixed_numeric_array(ref) or U.has_mixed_numeric_level(ref))):
+                    stats["agree"] += 1
+                else:
+                    stats["disagree"].append(dict(example=line.strip(), ref=U.show(ref), manual=U.show(want[1])))
+    ctx.extra["reference_corpus"] = stats
+    # a disagreement is a defect of the transcription (trusted base), not of klongpy
+    ctx.obligation("reference transcription reproduces the manual's examples",
+                   not stats["disagree"], str(stats["disagree"][:5]))
+
+
 def run(ctx):
     from klongpy import KlongInterpreter
     klong = KlongInterpreter()
@@ -323,6 +403,8 @@ def run(ctx):
                         "Grade on ties / Power kinds / Match tolerance: see DESIGN C01 spec decisions"]
     cases = gen_cases(ctx)
     try:
+        if drv:
+            run_reference_corpus(ctx, drv)
         lines = []
         for c in cases:
             ar, verb, a, b = c
